@@ -554,6 +554,7 @@ pub fn check<P: Prop>(o: &CheckOpts) -> i32 {
                 harness: vec![],
             };
             let mut start = k;
+            let mut startup_failures = 0;
             let t_start = Instant::now();
             // a worker killed by the code under test (stack overflow, abort) is restarted
             // after the run that killed it
@@ -591,13 +592,23 @@ pub fn check<P: Prop>(o: &CheckOpts) -> i32 {
                 let beat2 = beat.clone();
                 let pid = child.id() as i32;
                 let limit = Duration::from_secs(if thorough { 240 } else { 30 });
+                let started = std::sync::Arc::new(std::sync::atomic::AtomicBool::new(false));
+                let started2 = started.clone();
                 let watcher = std::thread::spawn(move || loop {
                     std::thread::sleep(Duration::from_millis(500));
                     let (t, done) = *beat2.lock().unwrap();
                     if done {
                         break;
                     }
-                    if t.elapsed() > limit {
+                    // process start-up (warm-up compiles, corpus scan) is not a run: it gets
+                    // a generous limit of its own, so a loaded machine cannot turn it into
+                    // a harness error
+                    let lim = if started2.load(std::sync::atomic::Ordering::SeqCst) {
+                        limit
+                    } else {
+                        Duration::from_secs(900)
+                    };
+                    if t.elapsed() > lim {
                         unsafe { libc::kill(pid, libc::SIGKILL) };
                         break;
                     }
@@ -613,6 +624,7 @@ pub fn check<P: Prop>(o: &CheckOpts) -> i32 {
                         Ok(WorkerMsg::Begin(i)) => {
                             last_begin = Some(i);
                             beat.lock().unwrap().0 = Instant::now();
+                            started.store(true, std::sync::atomic::Ordering::SeqCst);
                         }
                         Ok(WorkerMsg::Violation(a, b)) => agg.violations.push((*a, *b, start)),
                         Ok(WorkerMsg::Harness(e)) => agg.harness.push(e),
@@ -661,9 +673,16 @@ pub fn check<P: Prop>(o: &CheckOpts) -> i32 {
                         start = i + workers;
                     }
                     None => {
-                        agg.harness
-                            .push(format!("worker {} died before its first run: {}", k, why));
-                        break;
+                        // start-up failed (killed from outside, resource shortage): try again a
+                        // couple of times before calling it a harness error
+                        startup_failures += 1;
+                        if startup_failures > 3 {
+                            agg.harness.push(format!(
+                                "worker {} died before its first run, {} times: {}",
+                                k, startup_failures, why
+                            ));
+                            break;
+                        }
                     }
                 }
             }
